@@ -35,3 +35,10 @@ package utility
 //@   option intmode=math
 //@   ensures [value] result != nil && big(result) == number * 1000000000000000000
 //@   modifies nothing
+
+// The exported wrapper, as seen by callers that only need the shape of the result (the value is C18's
+// strToBigInt contract at decimal = 18): any sign is possible.
+//@ func StrToBigInt
+//@   option trusted
+//@   ensures [shape] (result1 == nil) == (result0 != nil)
+//@   modifies nothing
